@@ -313,7 +313,24 @@ def rule_fresh_objects(ctx: Ctx) -> None:
 
         copies = cfg.nodes(lambda s: isinstance(s, (ast.Assign, ast.AnnAssign)) and s.value is not None and fresh(s.value) and any(norm(t) == norm(val) for t in (s.targets if isinstance(s, ast.Assign) else [s.target])))
         inline = isinstance(val, ast.Call) and fresh(val)
-        copied = inline or (bool(copies) and cfg.must_pass(ENTRY, app[0], set(copies), normal_only=True))
+
+        def leaves(name: str, seen: frozenset = frozenset()) -> list[ast.AST]:
+            """Every value that can end up in `name` (through plain aliases), `None` placeholders ignored."""
+            out: list[ast.AST] = []
+            for a_ in walk_no_nested(ad.node):
+                if isinstance(a_, (ast.Assign, ast.AnnAssign)) and a_.value is not None and any(isinstance(t, ast.Name) and t.id == name for t in (a_.targets if isinstance(a_, ast.Assign) else [a_.target])):
+                    v_ = a_.value
+                    if isinstance(v_, ast.Constant) and v_.value is None:
+                        continue
+                    if isinstance(v_, ast.Name) and v_.id not in seen and v_.id not in ad.param_names():
+                        out += leaves(v_.id, seen | {name})
+                    else:
+                        out.append(v_)
+            return out
+
+        lv = leaves(val.id) if isinstance(val, ast.Name) and val.id not in ad.param_names() else []  # a parameter also holds the caller's object
+        all_fresh = bool(lv) and all(fresh(v_) for v_ in lv)
+        copied = inline or all_fresh or (bool(copies) and cfg.must_pass(ENTRY, app[0], set(copies), normal_only=True))
         ctx.add("7-fresh-objects", ad, cfg.stmt[app[0]], copied, "add() appends a copy of the function" if copied else
                 f"Pipeline.add can append the caller's own object `{norm(val)}` (no copy on some path): later updates through the pipeline change the caller's function and other pipelines", key="add-copies")
     ni = npf.methods["__init__"]
